@@ -12,17 +12,65 @@ import (
 	"golang.org/x/tools/go/ssa"
 )
 
-// execMethodCalls: calls in fn to methods of *Executor.
+// execMethodCalls: calls in fn to methods of *Executor (those that cannot
+// evaluate anything, see evaluatesNothing, left out).
 func (p *Prog) execMethodCalls(fn *ssa.Function) []*ssa.Call {
 	var out []*ssa.Call
 	for _, b := range fn.Blocks {
 		for _, ins := range b.Instrs {
-			if c, ok := ins.(*ssa.Call); ok && isMethodOfExecutor(p, c.Call.StaticCallee()) {
+			if c, ok := ins.(*ssa.Call); ok && isMethodOfExecutor(p, c.Call.StaticCallee()) && !p.evaluatesNothing(c.Call.StaticCallee(), 0) {
 				out = append(out, c)
 			}
 		}
 	}
 	return out
+}
+
+// evaluatesNothing: an unexported method of *Executor (or function taking one)
+// that has no context parameter and calls no Executor method other than mode
+// predicates and its like: it converts what an evaluation yielded
+// (`exec.matchResult(vals, err) (bool, error)`), it cannot run one.
+var evalNothingMemo = map[*ssa.Function]int{}
+
+func (p *Prog) evaluatesNothing(fn *ssa.Function, depth int) bool {
+	if fn == nil || fn.Blocks == nil || depth > 3 || !isMethodOfExecutor(p, fn) || fn.Object() == nil || fn.Object().Exported() || fn.Parent() != nil {
+		return false
+	}
+	if r, ok := evalNothingMemo[fn]; ok {
+		return r == 1
+	}
+	evalNothingMemo[fn] = 2
+	for _, q := range fn.Params {
+		if isContextType(q.Type()) {
+			return false
+		}
+		if _, isFn := q.Type().Underlying().(*types.Signature); isFn {
+			return false
+		}
+	}
+	for _, b := range fn.Blocks {
+		for _, ins := range b.Instrs {
+			ci, ok := ins.(ssa.CallInstruction)
+			if !ok {
+				continue
+			}
+			if ci.Common().IsInvoke() {
+				continue
+			}
+			g := ci.Common().StaticCallee()
+			if g == nil {
+				if _, isB := ci.Common().Value.(*ssa.Builtin); isB {
+					continue
+				}
+				return false // a function value: may be anything
+			}
+			if isMethodOfExecutor(p, g) && p.modePredicate(g) == "" && !p.evaluatesNothing(g, depth+1) {
+				return false
+			}
+		}
+	}
+	evalNothingMemo[fn] = 1
+	return true
 }
 
 // entrySet: the exported entry points of package exec and the plain functions
@@ -40,7 +88,11 @@ func (p *Prog) entrySet() map[*ssa.Function]bool {
 	for changed := true; changed; {
 		changed = false
 		for _, fn := range p.execFuncs() {
-			if set[fn] || fn.Signature.Recv() != nil || fn.Parent() != nil || fn.Object() == nil || fn.Object().Exported() || isOptionCtor(p, fn) {
+			if set[fn] || fn.Parent() != nil || fn.Object() == nil || fn.Object().Exported() || isOptionCtor(p, fn) {
+				continue
+			}
+			// plain functions, and methods that only convert an outcome
+			if fn.Signature.Recv() != nil && !p.evaluatesNothing(fn, 0) {
 				continue
 			}
 			nd := p.CG.Nodes[fn]
@@ -457,17 +509,38 @@ var ruleEntry = &Rule{
 						continue
 					}
 					for ai, a := range c.Call.Args {
-						if !isNilConst(a) {
-							continue
-						}
 						pt, ok := a.Type().(*types.Pointer)
 						if !ok || pt.Elem() != types.Type(p.A.ValueList) {
+							continue
+						}
+						// nil, or nil on some of the ways into a merge (`var vals
+						// *valueList; if strict { vals = newList() }`)
+						notStrictWhereNil := false
+						if ph, isPhi := a.(*ssa.Phi); isPhi {
+							nn, nok := 0, 0
+							for ei, e := range ph.Edges {
+								if !isNilConst(e) {
+									continue
+								}
+								nn++
+								pred := ph.Block().Preds[ei]
+								if p.strictFact(edgeFacts(pred, succIndex(pred, ph.Block())), false) {
+									nok++
+								}
+							}
+							if nn == 0 {
+								continue
+							}
+							notStrictWhereNil = nn == nok
+						} else if !isNilConst(a) {
 							continue
 						}
 						ncoll++
 						callee := c.Call.StaticCallee()
 						key := fmt.Sprintf("%s passes a nil collector to %s", fnName(fn), callee.Name())
 						switch {
+						case notStrictWhereNil:
+							out.ok(key, p.pos(c.Pos()), fnName(fn), "nil only on the way in on which the path is known not to be strict")
 						case p.strictFact(factsAt(b), false):
 							out.ok(key, p.pos(c.Pos()), fnName(fn), "only on the branch where the path is known not to be strict")
 						case p.recollectsWhenStrict(callee, ai):
@@ -602,10 +675,47 @@ func (p *Prog) recollectsWhenStrict(callee *ssa.Function, argIdx int) bool {
 						return p.otherUsesGuarded(callee, q)
 					}
 				}
+				// … or the branch is handed to a function that evaluates into
+				// a list of its own and into nothing else
+				if p.collectsIntoOwnList(c.Call.StaticCallee()) {
+					return p.otherUsesGuarded(callee, q)
+				}
 			}
 		}
 	}
 	return false
+}
+
+// collectsIntoOwnList: h (a status method without a collector parameter)
+// evaluates, and every evaluation call in it is handed a list made in h.
+func (p *Prog) collectsIntoOwnList(h *ssa.Function) bool {
+	if h == nil || h.Blocks == nil || p.pairKind(h.Signature) != "status" || p.collectorParam(h) != nil {
+		return false
+	}
+	n := 0
+	for _, c := range p.allCalls(h) {
+		if !isMethodOfExecutor(p, c.Call.StaticCallee()) || p.pairKind(calleeSig(c)) != "status" {
+			continue
+		}
+		own := false
+		for _, a := range c.Call.Args {
+			pt, ok := a.Type().(*types.Pointer)
+			if !ok || pt.Elem() != types.Type(p.A.ValueList) {
+				continue
+			}
+			switch stripConvPlain(a).(type) {
+			case *ssa.Call, *ssa.Alloc:
+				own = true
+			default:
+				return false
+			}
+		}
+		if !own {
+			return false
+		}
+		n++
+	}
+	return n > 0
 }
 
 func (p *Prog) otherUsesGuarded(fn *ssa.Function, q *ssa.Parameter) bool {
@@ -853,6 +963,19 @@ func (p *Prog) entrySuccessTag(name string, fn *ssa.Function, r RetSite, res0 ss
 					}
 				}
 			}
+			// spelled out: true where the status is known OK, false where it is
+			// known to be neither OK nor failed (`switch res { case failed: … case OK: … default: … }`)
+			if c := p.A.StatusConsts["statusOK"]; c != nil {
+				isOK := p.statusFact(fs, res0, constOf(c))
+				if kc, ok := v.(*ssa.Const); ok && kc.Value != nil {
+					switch {
+					case kc.Value.ExactString() == "true" && isOK == 1:
+						return "status == OK"
+					case kc.Value.ExactString() == "false" && isOK == -1:
+						return "status == OK"
+					}
+				}
+			}
 		}
 	case "Match":
 		// facts: len(list) == 1 ?
@@ -877,7 +1000,7 @@ func (p *Prog) entrySuccessTag(name string, fn *ssa.Function, r RetSite, res0 ss
 		if one == 1 {
 			// element tests
 			for _, f := range fs {
-				if bo, ok := f.Cond.(*ssa.BinOp); ok && bo.Op == token.EQL && isNilConst(bo.Y) && f.Truth {
+				if bo, ok := f.Cond.(*ssa.BinOp); ok && isNilConst(bo.Y) && (bo.Op == token.EQL) == f.Truth && (bo.Op == token.EQL || bo.Op == token.NEQ) && p.isElem0(bo.X, res0) {
 					elem = bo.X
 				}
 			}
@@ -1011,12 +1134,37 @@ var ruleModePred = &Rule{
 // ignoreField: the bool Executor field that a restorer-returning helper with a
 // bool parameter overrides (tempSetIgnoreStructuralErrors).
 func (p *Prog) ignoreField() *types.Var {
-	for _, sc := range p.classifyState() {
+	scs := p.classifyState()
+	for _, sc := range scs {
 		if sc.Class != "restorer-helper" {
 			continue
 		}
 		if b, ok := sc.Field.Type().(*types.Basic); ok && b.Kind() == types.Bool {
 			return sc.Field
+		}
+	}
+	// no helper: the bool field that is saved and restored in place and that
+	// the constructor fills from the path's IsLax()
+	for _, sc := range scs {
+		if sc.Class != "defer-restore" && sc.Class != "explicit-restore" {
+			continue
+		}
+		b, ok := sc.Field.Type().(*types.Basic)
+		if !ok || b.Kind() != types.Bool {
+			continue
+		}
+		for _, ctor := range scs {
+			if ctor.Class != "constructor" || ctor.Field != sc.Field {
+				continue
+			}
+			for _, st := range p.execStores(ctor.Fn) {
+				if st.Field != sc.Field {
+					continue
+				}
+				if c, ok := stripConv(st.Store.Val).(*ssa.Call); ok && c.Call.StaticCallee() != nil && c.Call.StaticCallee().Name() == "IsLax" && fnPkgPath(c.Call.StaticCallee()) == pkgAST {
+					return sc.Field
+				}
+			}
 		}
 	}
 	return nil
@@ -1085,82 +1233,111 @@ func (p *Prog) coreTable(out *RuleOut, core *ssa.Function) {
 		out.undecided(key, p.pos(core.Pos()), fnName(core), "no collector parameter")
 		return
 	}
-	tx, rows := p.extractTable(core, nil, &TableCfg{})
+	coreColl := coll
 	okC, nf, failed := constOf(p.A.StatusConsts["statusOK"]), constOf(p.A.StatusConsts["statusNotFound"]), constOf(p.A.StatusFailed)
 	n := 0
 	var probs []string
-	for _, r := range rows {
-		if r.Loop != nil || len(r.Out) != 2 {
-			continue
-		}
-		var eval, empt *ssa.Call
-		for _, c := range r.Calls {
-			if sig := calleeSig(c); sig != nil && p.pairKind(sig) == "status" {
-				eval = c
-			}
-		}
-		where := p.pos(r.End.Pos())
-		if eval == nil {
-			probs = append(probs, "path at "+where+" returns without evaluating")
-			continue
-		}
-		var evalColl ssa.Value
-		for _, a := range eval.Call.Args {
-			if pt, ok := a.Type().(*types.Pointer); ok && pt.Elem() == types.Type(p.A.ValueList) {
-				evalColl = a
-			}
-		}
-		for _, c := range r.Calls {
-			if c.Call.StaticCallee() != nil && len(c.Call.Args) > 0 && c.Call.Args[0] == evalColl && emptinessPolarity(c.Call.StaticCallee()) != 0 {
-				empt = c
-			}
-		}
-		st, e1 := atomKey(eval, 0), atomKey(eval, 1)
-		names := tx.atomsOf(append(guardTerms(r), r.Out...)...)
-		tx.term(eval, r, 0)
-		names = uniq(sortStrings(append(names, st, e1)))
-		for _, as := range tx.models(r, names) {
-			if (as[e1] == 1) != (as[st] == failed) {
-				continue // incoherent pair (excluded by R-PAIR-P)
-			}
-			n++
-			got, gerr := tx.eval(r.Out[0], as, 0), tx.eval(r.Out[1], as, 0)
-			if evalColl == ssa.Value(coll) {
-				// plain evaluation: the pair is returned as it is
-				if got.Kind != "int" || got.K != as[st] || (as[e1] == 1 && (gerr.Kind != "ref" || gerr.Ref != e1)) || (as[e1] == 0 && gerr.Kind != "nil" && !(gerr.Kind == "ref" && gerr.Ref == e1)) {
-					probs = append(probs, fmt.Sprintf("evaluation into the caller's collector: status %d → (%v, %s) at %s, expected the evaluation's own pair", as[st], got.K, errValName(gerr), where))
-				}
+	// checkRows judges the rows of fn: the core itself, or the function the
+	// core hands the re-collecting branch to (`return exec.queryComplete(ctx,
+	// node, value)`, reached at block via); coll is fn's collector parameter
+	// (nil for that helper, which has none).
+	var checkRows func(fn *ssa.Function, coll *ssa.Parameter, via *ssa.BasicBlock, depth int)
+	checkRows = func(fn *ssa.Function, coll *ssa.Parameter, via *ssa.BasicBlock, depth int) {
+		tx, rows := p.extractTable(fn, nil, &TableCfg{})
+		for _, r := range rows {
+			if r.Loop != nil || len(r.Out) != 2 {
 				continue
 			}
-			// re-collecting branch
-			isNil, _ := nilFact(factsAt(eval.Block()), coll)
-			if !isNil || !p.strictFact(factsAt(eval.Block()), true) {
-				probs = append(probs, "the core evaluates into a private list at "+p.pos(eval.Pos())+" outside the branch 'strict and no collector'")
-			}
-			switch {
-			case as[st] == failed:
-				if got.Kind != "int" || got.K != failed || gerr.Kind != "ref" || gerr.Ref != e1 {
-					probs = append(probs, fmt.Sprintf("failed evaluation → (%v, %s) at %s, expected (failed, that error)", got.K, errValName(gerr), where))
+			var eval, empt *ssa.Call
+			for _, c := range r.Calls {
+				if sig := calleeSig(c); sig != nil && p.pairKind(sig) == "status" {
+					eval = c
 				}
-			case empt == nil:
-				probs = append(probs, fmt.Sprintf("status %d of the complete evaluation decides the answer at %s without looking at the collected list: Exists can differ from Query", as[st], where))
-			default:
-				ev, has := as[atomKey(empt, 0)]
-				if !has {
-					probs = append(probs, "emptiness is computed but not tested on the path at "+where)
+			}
+			where := p.pos(r.End.Pos())
+			if eval == nil {
+				probs = append(probs, "path at "+where+" returns without evaluating")
+				continue
+			}
+			var evalColl ssa.Value
+			for _, a := range eval.Call.Args {
+				if pt, ok := a.Type().(*types.Pointer); ok && pt.Elem() == types.Type(p.A.ValueList) {
+					evalColl = a
+				}
+			}
+			// the whole branch handed to a function of the core's own
+			if h := eval.Call.StaticCallee(); evalColl == nil && depth == 0 && h != nil && !eval.Call.IsInvoke() && h.Blocks != nil && isMethodOfExecutor(p, h) &&
+				r.Out[0].Kind == "atom" && r.Out[0].Atom == atomKey(eval, 0) && r.Out[1].Kind == "atom" && r.Out[1].Atom == atomKey(eval, 1) {
+				only := true
+				if nd := p.CG.Nodes[h]; nd != nil {
+					for _, e := range nd.In {
+						if e.Caller.Func != fn {
+							only = false
+						}
+					}
+				}
+				if only {
+					checkRows(h, nil, eval.Block(), depth+1)
 					continue
 				}
-				isEmpty := (ev == 1) == (emptinessPolarity(empt.Call.StaticCallee()) > 0)
-				want := okC
-				if isEmpty {
-					want = nf
+			}
+			for _, c := range r.Calls {
+				if c.Call.StaticCallee() != nil && len(c.Call.Args) > 0 && c.Call.Args[0] == evalColl && emptinessPolarity(c.Call.StaticCallee()) != 0 {
+					empt = c
 				}
-				if got.Kind != "int" || got.K != want || gerr.Kind != "nil" {
-					probs = append(probs, fmt.Sprintf("complete evaluation with status %d and empty=%v → (%v, %s) at %s, expected (%d, nil)", as[st], isEmpty, got.K, errValName(gerr), where, want))
+			}
+			st, e1 := atomKey(eval, 0), atomKey(eval, 1)
+			names := tx.atomsOf(append(guardTerms(r), r.Out...)...)
+			tx.term(eval, r, 0)
+			names = uniq(sortStrings(append(names, st, e1)))
+			for _, as := range tx.models(r, names) {
+				if (as[e1] == 1) != (as[st] == failed) {
+					continue // incoherent pair (excluded by R-PAIR-P)
+				}
+				n++
+				got, gerr := tx.eval(r.Out[0], as, 0), tx.eval(r.Out[1], as, 0)
+				if coll != nil && evalColl == ssa.Value(coll) {
+					// plain evaluation: the pair is returned as it is
+					if got.Kind != "int" || got.K != as[st] || (as[e1] == 1 && (gerr.Kind != "ref" || gerr.Ref != e1)) || (as[e1] == 0 && gerr.Kind != "nil" && !(gerr.Kind == "ref" && gerr.Ref == e1)) {
+						probs = append(probs, fmt.Sprintf("evaluation into the caller's collector: status %d → (%v, %s) at %s, expected the evaluation's own pair", as[st], got.K, errValName(gerr), where))
+					}
+					continue
+				}
+				// re-collecting branch
+				guardAt, guardColl := eval.Block(), coll
+				if via != nil {
+					guardAt, guardColl = via, coreColl
+				}
+				isNil, _ := nilFact(factsAt(guardAt), guardColl)
+				if !isNil || !p.strictFact(factsAt(guardAt), true) {
+					probs = append(probs, "the core evaluates into a private list at "+p.pos(eval.Pos())+" outside the branch 'strict and no collector'")
+				}
+				switch {
+				case as[st] == failed:
+					if got.Kind != "int" || got.K != failed || gerr.Kind != "ref" || gerr.Ref != e1 {
+						probs = append(probs, fmt.Sprintf("failed evaluation → (%v, %s) at %s, expected (failed, that error)", got.K, errValName(gerr), where))
+					}
+				case empt == nil:
+					probs = append(probs, fmt.Sprintf("status %d of the complete evaluation decides the answer at %s without looking at the collected list: Exists can differ from Query", as[st], where))
+				default:
+					ev, has := as[atomKey(empt, 0)]
+					if !has {
+						probs = append(probs, "emptiness is computed but not tested on the path at "+where)
+						continue
+					}
+					isEmpty := (ev == 1) == (emptinessPolarity(empt.Call.StaticCallee()) > 0)
+					want := okC
+					if isEmpty {
+						want = nf
+					}
+					if got.Kind != "int" || got.K != want || gerr.Kind != "nil" {
+						probs = append(probs, fmt.Sprintf("complete evaluation with status %d and empty=%v → (%v, %s) at %s, expected (%d, nil)", as[st], isEmpty, got.K, errValName(gerr), where, want))
+					}
 				}
 			}
 		}
 	}
+	checkRows(core, coll, nil, 0)
 	sort.Strings(probs)
 	probs = uniq(probs)
 	switch {
